@@ -161,7 +161,7 @@ fn calls_subr(cs: &[u8]) -> bool {
 pub fn run(ctx: &Ctx) {
     let header = "From OxVerif Require Import Base.Util C12.Model.";
     let mut out = Out::new(ctx, header, "bool * list (N * bytes * bytes * N * N)", "cff_code");
-    out.shard_size = 10;
+    out.shard_size = 4;
     let data = match std::fs::read(super::SOURCESANS) {
         Ok(d) => d,
         Err(e) => {
@@ -266,8 +266,8 @@ pub fn run(ctx: &Ctx) {
             }
             let (adv_o, adv_s) = (otf.metrics(g as usize).map(|m| m.0).unwrap_or(0), otf.metrics(g as usize).map(|m| m.0).unwrap_or(0));
             rows.push(format!("({}, {}, {}, {}, {})", c, coq_bytes(&want), coq_bytes(got), adv_o, adv_s));
-            if rows.len() >= 40 {
-                break; // keep the literal small; the sample is the first 40 mapped characters in code order
+            if rows.len() >= 16 {
+                break; // keep the literal small; the sample is the first 16 mapped characters in code order
             }
         }
         let coq = format!("({}, {}nil)", coq_bool(struct_ok), rows.iter().map(|r| format!("{r} :: ")).collect::<String>());
